@@ -1,6 +1,7 @@
 CONSTANTS
   MaxId = 3
   ZeroIncBug = FALSE
+  OpenCleanupBug = FALSE
   OpenRaceBug = FALSE
   W = 1
   B = 1
